@@ -2,7 +2,7 @@
    sbdf_ts_create, and sbdf_cs_destroy / sbdf_ts_destroy on slices built by the caller (owned = 0):
    exactly the container's own blocks are released - the names, the two pointer arrays, the struct -
    and the value arrays / column slices it refers to are left alone. *)
-From Sbdf Require Import ImpCall Gen.Prog Gen.Consts Base BaseFacts ImpBase ImpFactsCells.
+From Sbdf Require Import ImpCall Gen.Prog Gen.Consts Base BaseFacts ImpBase ImpFactsCells ImpFactsStrDestroy.
 From Coq Require Import ZifyBool.
 Local Open Scope Z_scope.
 Ltac Zify.zify_post_hook ::= Z.div_mod_to_equations.
@@ -19,18 +19,6 @@ Definition elem_ptrs (m : list Z) (cells : list val) : Prop :=
 Section Release.
 Variables (bv : val) (k : Z) (sx : list Z) (m o : list Z).
 
-Lemma str_destroy_fr h p : 4 <= p <= zlen m ->
-  bsE prog_env (fbody prog_sbdf_str_destroy) (fr [("str"%string, VPtr RIn p)] bv k sx h m o) (ONormal (fr [("str"%string, VPtr RIn p)] bv k sx h m o)).
-Proof.
-  intros Hp. cbn [fbody prog_sbdf_str_destroy]. unfold fr.
-  assert (DA : bsE prog_env (fbody prog_sbdf_dispose_array)
-     {| vars := [("array"%string, VPtr RIn p); (budget_var, bv); (fail_var, VInt k); (strm_var, VBytes sx); (cells_var, VHeap h)]; inb := m; outb := o |}
-     (ONormal {| vars := [("array"%string, VPtr RIn p); (budget_var, bv); (fail_var, VInt k); (strm_var, VBytes sx); (cells_var, VHeap h)]; inb := m; outb := o |})).
-  { cbn [fbody prog_sbdf_dispose_array]. eapply bsE_if; [evr; reflexivity|reflexivity|]. eapply bsE_expr. evr. chk7. evr. chk7. evr. unfold ptr_add. cbn [inb]. rewrite zlen_length.
-    replace ((0 <=? p + -4 * 1) && (p + -4 * 1 <=? zlen m)) with true by lia. cbn [inb]. rewrite zlen_length.
-    replace ((0 <=? p + -4 * 1) && (p + -4 * 1 <=? zlen m)) with true by lia. reflexivity. }
-  eapply bsE_call_void; [reflexivity|evr; reflexivity|reflexivity|evr; exact DA|evr; reflexivity].
-Qed.
 
 (* ---- sbdf_cs_destroy on a slice that does not own its arrays ---- *)
 Lemma cs_names_loop h cb values names props nb ncells used : 
@@ -53,7 +41,7 @@ Proof.
     assert (Hd : zlen done < zlen used) by (rewrite Hu, zlen_app; unfold zlen; cbn [List.length]; lia).
     assert (Hnth : nth_error ncells (Z.to_nat (0 + zlen done)) = Some (VPtr RIn p)).
     { rewrite Hsl, Hu. replace (Z.to_nat (0 + zlen done)) with (List.length done) by (unfold zlen; lia). rewrite <- app_assoc. rewrite nth_error_app2 by lia. rewrite Nat.sub_diag. reflexivity. }
-    pose proof (str_destroy_fr h p Hp) as SD. unfold fr in SD. cbn [app] in SD.
+    pose proof (str_destroy_fr bv k sx m o h p Hp) as SD. unfold fr in SD. cbn [app] in SD.
     eapply bsE_while_t; [evr; chk7; evr; cellrw Hc; evr; replace (zlen done <? zlen used) with true by lia; reflexivity|reflexivity| |].
     + eapply bsE_seq.
       * eapply bsE_call_void; [reflexivity
